@@ -311,6 +311,38 @@ func ctxOrigins(v ssa.Value, seen map[ssa.Value]bool) []ssa.Value {
 		return out
 	case *ssa.UnOp:
 		if x.Op == token.MUL {
+			// a context kept in a field of an in-package helper struct (m.ctx): whatever is stored into that field anywhere
+			// in the package (flow-insensitive)
+			if fa, ok := x.X.(*ssa.FieldAddr); ok && curCtx != nil {
+				if nt, ok := derefType(fa.X.Type()).(*types.Named); ok && nt.Obj().Pkg() != nil && x.Parent() != nil && rootFn(x.Parent()).Pkg != nil && nt.Obj().Pkg() == rootFn(x.Parent()).Pkg.Pkg {
+					fld := fieldName(fa.X.Type(), fa.Field)
+					var out []ssa.Value
+					n := 0
+					for _, f2 := range curCtx.Funcs {
+						if rootFn(f2).Pkg != rootFn(x.Parent()).Pkg {
+							continue
+						}
+						instrs(f2, func(_ *ssa.BasicBlock, _ int, in ssa.Instruction) {
+							st, ok := in.(*ssa.Store)
+							if !ok {
+								return
+							}
+							fa2, ok := st.Addr.(*ssa.FieldAddr)
+							if !ok || fieldName(fa2.X.Type(), fa2.Field) != fld {
+								return
+							}
+							if nt2, ok := derefType(fa2.X.Type()).(*types.Named); !ok || nt2.Origin() != nt.Origin() {
+								return
+							}
+							n++
+							out = append(out, ctxOrigins(st.Val, seen)...)
+						})
+					}
+					if n > 0 {
+						return out
+					}
+				}
+			}
 			if fv, ok := x.X.(*ssa.FreeVar); ok {
 				cell := cellOf(fv)
 				if cell == nil {
